@@ -250,10 +250,17 @@ static void grid_cfg(const char *g, int k, int n, fcfg_t *c) {
 }
 static int next_perm(int *p, int n) { int i = n - 2; while (i >= 0 && p[i] > p[i + 1]) i--; if (i < 0) return 0; int j = n - 1; while (p[j] < p[i]) j--; int t = p[i]; p[i] = p[j]; p[j] = t; for (int a = i + 1, b = n - 1; a < b; a++, b--) { t = p[a]; p[a] = p[b]; p[b] = t; } return 1; }
 
-static int VF_RUN_TIMEOUT;
+static int FIRST_CLASS_PASS = 1;
+static int VF_RUN_TIMEOUT; static int GRID_CLASS = -2; static unsigned char CLASS_SEEN[48];
 static void run_and_judge(const tmat_t *T, const mref_t *m, int vkind, int salt, const fcfg_t *c) {
     static fres_t r; char cs[600];
     /* after a death the sweep resumes behind the configuration that died (same matrix) */
+    /* the kernels p?gstrf_bmod2D* cache sp_ienv(3) and sp_ienv(4) in function statics at their first call: a PROCESS must see one value
+       of each (as a program with a fixed sp_ienv does).  The sweep is therefore done class by class - class = (maxsuper, rowblk) - each
+       class in child processes of its own; GRID_CLASS = -1: dry run that only records which classes occur; -2: no filter (replay of one case). */
+    { int cls = (c->maxsuper < 0 ? 0 : c->maxsuper > 15 ? 15 : c->maxsuper) * 3 + (c->rowblk >= 100 ? 2 : c->rowblk >= 2 ? 1 : 0);      /* rowblk takes the values 1, 2, 200 */
+      if (GRID_CLASS == -1) { CLASS_SEEN[cls] = 1; return; }
+      if (GRID_CLASS >= 0 && cls != GRID_CLASS) return; }
     G->cfg_no++;
     if (G->resume_cfg && G->cfg_no <= G->resume_cfg) return;
     case_str(T, salt, vkind, c, cs, sizeof cs);
@@ -270,8 +277,8 @@ static void cases_for_matrix(const tmat_t *T, int vkind, int salt) {
     int n = T->n; fcfg_t c;
     int ng = ngrid(SW.grid);
     /* C01/C02/C09 speak about runs that can end with info = 0: structurally singular inputs are C06's (and C05's) business */
-    if (!strcmp(PROP, "C17") && !m.struct_nonsing) { G->hyp_skipped++; return; }
-    if (!m.struct_nonsing && (!strcmp(PROP, "C01") || !strcmp(PROP, "C02") || !strcmp(PROP, "C09") || (!strcmp(PROP, "C05") && n > 3))) { G->hyp_skipped++; return; }
+    if (!strcmp(PROP, "C17") && !m.struct_nonsing) { { if (FIRST_CLASS_PASS) G->hyp_skipped++; } return; }
+    if (!m.struct_nonsing && (!strcmp(PROP, "C01") || !strcmp(PROP, "C02") || !strcmp(PROP, "C09") || (!strcmp(PROP, "C05") && n > 3))) { { if (FIRST_CLASS_PASS) G->hyp_skipped++; } return; }
     if (!strcmp(PROP, "C02") || !strcmp(PROP, "C09") || !strcmp(PROP, "C05")) {
         static const double US[4] = { 1.0, 0.1, 0.5, 0.0 };
         int nu = !strcmp(SW.grid, "full") ? 4 : 2;
@@ -313,10 +320,12 @@ static void cases_for_matrix(const tmat_t *T, int vkind, int salt) {
             run_and_judge(T, &m, vkind, salt, &c);
         }
     } else if (!strcmp(PROP, "C17")) {
-        for (int drv = 0; drv <= 2; drv++) for (int ord = 0; ord < 4; ord++) for (int P = 1; P <= 3; P += 2) for (int lw = 0; lw < 2; lw++) for (int g = 0; g < ng && g < 2; g++) {
+        /* row-wise storage of A (the drivers build a column-format view of their own, which they must release) added after seeded change C17/3 was missed */
+        for (int drv = 0; drv <= 2; drv++) for (int ord = 0; ord < 4; ord++) for (int P = 1; P <= 3; P += 2) for (int lw = 0; lw < 2; lw++) for (int g = 0; g < ng && g < 2; g++) for (int nr = 0; nr < (drv == DRV_DIRECT ? 1 : 2); nr++) {
             if (lw && drv == DRV_GSSV) continue;
+            if (nr && (ord == 2 || P == 3)) continue;
             if (!m.struct_nonsing && vkind != 4 && vkind != 5) continue;          /* structurally singular inputs crash (known finding of C06) */
-            fcfg_default(&c); grid_cfg(SW.grid, g, n, &c); c.driver = drv; c.ordering = ord; c.nprocs = P; c.lwork = lw ? -1 : 0; c.nrhs = 1;
+            fcfg_default(&c); grid_cfg(SW.grid, g, n, &c); c.driver = drv; c.ordering = ord; c.nprocs = P; c.lwork = lw ? -1 : 0; c.nrhs = 1; c.as_nr = nr;
             if (drv == DRV_GSSVX) c.fact = g ? EQUILIBRATE : DOFACT;
             run_and_judge(T, &m, vkind, salt, &c);
         }
@@ -369,13 +378,32 @@ static int cat_build(int id, tmat_t *T, char *name, size_t nl) {
     case 9: n = 6; snprintf(name, nl, "dense6"); for (int i = 0; i < n; i++) for (int j = 0; j < n; j++) pat[i][j] = 1; break;
     case 10: n = 12; snprintf(name, nl, "wide-forest12"); for (int i = 0; i < n; i++) { pat[i][i] = 1; if (i % 3 != 2) pat[i][i - i % 3 + 2] = 1; } break;
     case 11: n = 11; snprintf(name, nl, "dense-row-col11"); for (int i = 0; i < n; i++) { pat[i][i] = 1; pat[5][i] = 1; pat[i][7] = 1; } break;
+    /* 12..19: dense and trailing-dense blocks (added after seeded change C02/3 was missed): supernodes as wide as the tuning parameters allow */
+    case 12: case 13: case 14: case 15: case 16: case 17: { static const int DN[6] = { 5, 7, 8, 9, 10, 12 }; n = DN[id - 12]; snprintf(name, nl, "dense%d", n); for (int i = 0; i < n; i++) for (int j = 0; j < n; j++) pat[i][j] = 1; } break;
+    case 18: n = 10; snprintf(name, nl, "chain4+dense6"); for (int i = 0; i < n; i++) { pat[i][i] = 1; if (i < 4) pat[i][i + 1] = pat[i + 1][i] = 1; } for (int i = 4; i < n; i++) for (int j = 4; j < n; j++) pat[i][j] = 1; break;
+    case 19: n = 11; snprintf(name, nl, "two-dense-blocks+border11"); for (int i = 0; i < 5; i++) for (int j = 0; j < 5; j++) { pat[i][j] = 1; pat[5 + i][5 + j] = 1; } for (int i = 0; i < n; i++) { pat[10][i] = pat[i][10] = 1; } break;
     default: return 0;
     }
     for (int i = 0; i < n; i++) for (int j = 0; j < n; j++) D[i][j] = value_of(SW.vkind, SW.salt + id, i, j, n);
     tm_from_dense(T, n, n, pat, D);
     return n;
 }
-static void cat_case_fn(long idx, void *ctx) { (void)ctx; static tmat_t T; char nm[40]; if (cat_build((int)idx, &T, nm, sizeof nm)) cases_for_matrix(&T, SW.vkind, SW.salt + (int)idx); }
+/* family tune: the COMPLETE product of the tuning parameters on one catalogue matrix: maxsuper 1..n x relax 1..4 x panel 1,2,3,4,6 x rowblk {1,2,200} x colblk {1,2,100}
+   x threads {1,2}; direct driver (simple driver for C01) */
+static int TUNE;
+static void tune_cases(const tmat_t *T, int vkind, int salt) {
+    static mref_t m; mref_compute(T, &m); int n = T->n; fcfg_t c;
+    if (!m.struct_nonsing || !m.num_nonsing) { if (FIRST_CLASS_PASS) G->hyp_skipped++; return; }
+    static const int WS[5] = { 1, 2, 3, 4, 6 }, RB[3] = { 1, 2, 200 }, CB[3] = { 1, 2, 100 };
+    for (int ms = 1; ms <= n; ms++) for (int rl = 1; rl <= 4; rl++) for (int wi = 0; wi < 5; wi++) for (int rb = 0; rb < 3; rb++) for (int cb = 0; cb < 3; cb++) for (int P = 1; P <= 2; P++) {
+        if (P == 2 && (rb != 0 || cb != 0)) continue;
+      for (int dyn = 0; dyn < (P == 1 && rb < 2 ? 2 : 1); dyn++) {
+        fcfg_default(&c); c.dyn = dyn; c.maxsuper = ms; c.relax = rl; c.w = WS[wi]; c.rowblk = RB[rb]; c.colblk = CB[cb]; c.nprocs = P; c.driver = !strcmp(PROP, "C01") ? DRV_GSSV : DRV_DIRECT; c.nrhs = 1;
+        run_and_judge(T, &m, vkind, salt, &c);
+      }
+    }
+}
+static void cat_case_fn(long idx, void *ctx) { (void)ctx; static tmat_t T; char nm[40]; if (cat_build((int)idx, &T, nm, sizeof nm)) { if (TUNE) tune_cases(&T, SW.vkind, SW.salt + (int)idx); else cases_for_matrix(&T, SW.vkind, SW.salt + (int)idx); } }
 static void cat_death_fn(long idx, int kind, int code, const char *note, void *ctx) {
     (void)ctx; n_deaths++; n_viol++; char sig[200], cd[128]; vf_crash_desc(kind, code, cd, sizeof cd); snprintf(sig, sizeof sig, "%s:crash:%s:catalogue%ld", PROP, cd, idx);
     out_violation(PROP, sig, note, "process died (%s) while running this case", cd);
@@ -423,9 +451,16 @@ int main(int argc, char **argv) {
         unsigned long long per = (npat + SW.nslice - 1) / SW.nslice, lo = per * SW.islice, hi = lo + per; if (hi > npat) hi = npat;
         total = (long)(hi - lo);
         /* chunks, so that a deadline can stop between chunks */
+        /* dry run (no library call): which (maxsuper, rowblk) classes does the configuration menu of this job contain? */
         for (unsigned long long a = lo; a < hi; a += 4096) {
             if (now_s() - t0 > deadline) { complete = 0; break; }
             unsigned long long b = a + 4096 < hi ? a + 4096 : hi;
+            /* dry run over the chunk (no library call): which (maxsuper, rowblk) classes do the configuration menus of its matrices contain? */
+            memset(CLASS_SEEN, 0, sizeof CLASS_SEEN); GRID_CLASS = -1; FIRST_CLASS_PASS = 0; for (unsigned long long i = a; i < b; i++) case_fn((long)i, NULL);
+            int ncls = 0, clsv[48]; for (int q = 0; q < 48; q++) if (CLASS_SEEN[q]) clsv[ncls++] = q;
+            if (ncls == 0) { GRID_CLASS = 0; FIRST_CLASS_PASS = 1; for (unsigned long long i = a; i < b; i++) case_fn((long)i, NULL); }   /* nothing to run: count the skipped matrices */
+          for (int ci = 0; ci < ncls; ci++) {
+            GRID_CLASS = clsv[ci]; FIRST_CLASS_PASS = (ci == 0); G->resume_cfg = 0; G->resumes = 0;
             unsigned long long next = a;
             while (next < b) {
                 if (!vf_sh) vf_sh = mmap(NULL, sizeof *vf_sh, PROT_READ | PROT_WRITE, MAP_SHARED | MAP_ANONYMOUS, -1, 0);
@@ -445,10 +480,15 @@ int main(int argc, char **argv) {
                 if (G->cfg_no > G->resume_cfg && G->resumes < 2) { G->resume_cfg = G->cfg_no; G->resumes++; next = (unsigned long long)bad; }   /* same matrix again, behind the configuration that died (at most twice) */
                 else { G->resume_cfg = 0; G->resumes = 0; next = (unsigned long long)bad + 1; }
             }
+          }
             done += (long)(b - a);
         }
-    } else if (!strcmp(family, "cat")) {
-        for (long i = SW.islice; i < 12; i += SW.nslice) { total++; vf_run_isolated(i, i + 1, cat_case_fn, cat_death_fn, NULL, timeout * 10); done++; }
+    } else if (!strcmp(family, "cat") || !strcmp(family, "tune")) {
+        TUNE = !strcmp(family, "tune"); long ncat = TUNE ? 20 : 12;
+        for (long i = SW.islice; i < ncat; i += SW.nslice) { total++;
+            memset(CLASS_SEEN, 0, sizeof CLASS_SEEN); GRID_CLASS = -1; FIRST_CLASS_PASS = 0; cat_case_fn(i, NULL); int firstc = 1;
+            for (int q = 0; q < 48; q++) if (CLASS_SEEN[q]) { GRID_CLASS = q; FIRST_CLASS_PASS = firstc; firstc = 0; vf_run_isolated(i, i + 1, cat_case_fn, cat_death_fn, NULL, timeout * 10); }
+            done++; }
     }
     out_stats(PROP, "\"family\":\"%s\",\"n\":%d,\"grid\":\"%s\",\"forced\":%d,\"vkind\":%d,\"slice\":\"%d/%d\",\"matrices\":%ld,\"matrices_total\":%ld,\"complete\":%s,"
               "\"cancellation_only_unjudged\":%ld,\"matrices_outside_hypothesis\":%ld,\"runs\":%ld,\"judged\":%ld,\"skipped\":%ld,\"violations\":%ld,\"info0\":%ld,\"singular_reports\":%ld,\"distinct_outcomes\":%ld,\"deaths\":%ld,\"wall_s\":%.2f",
